@@ -223,8 +223,10 @@ def write_adf12(blocks, expchar="D", labels=True, nbsel=None, symbol="C", zion=6
 # ADF15
 # ------------------------------------------------------------------------------------------------
 
-# spectroscopic letters for total orbital angular momentum L = 0, 1, 2, ... (no J, no P twice)
-L_LETTERS = "SPDFGHIKLMNOQR"
+# spectroscopic letters for total orbital angular momentum L = 0, 1, 2, ...: S P D F, then the alphabet from G on,
+# omitting J (never used in spectroscopic notation) and the letters already spent (P, S): ... H I K L M N O Q R T U V ...
+L_LETTERS = "SPDFGHIKLMNOQRTUVWXYZ"
+assert "J" not in L_LETTERS and len(set(L_LETTERS)) == len(L_LETTERS) and L_LETTERS[7] == "K" and L_LETTERS[12] == "Q"
 
 
 def config_name(shells, mult, L, jtext):
@@ -280,7 +282,8 @@ def write_adf15(ion_title, z_nuclear, charge, blocks, style, levels=None, a_adja
             lv = levels[idx]
             cfg = " ".join(lv["shells"])
             cfg = cfg.lower() if lower_case else cfg.upper()
-            c.append("C  %3d    %-20s(%d)%d(%s)    %13.1f" % (idx, cfg + " ", lv["mult"], lv["L"], lv["jtext"], lv["energy"]))
+            c.append("C  %3d    %s(%d)%d(%s)    %13.1f" % (idx, (cfg + " ").ljust(20), lv["mult"], lv["L"], lv["jtext"],
+                                                          lv["energy"]))
         c.append("C")
     c.append("C  ISEL  WAVELENGTH      TRANSITION       TYPE   METASTABLE  IMET NMET IP")
     c.append("C  ----  ----------  -----------------    -----  ----------  ---- ---- --")
